@@ -1252,13 +1252,13 @@ def tie_corpus():
         mats, tags = [], []
         for bn, q in bases.items():
             M0 = P().SO3(torch.tensor(q, dtype=torch.float64).to(D)).matrix().clone()
-            for kind in ("R00=R11", "R00=-R11", "R22=atol", "R22=atol&R00=R11", "R22=atol&R00=-R11", "R00=R11=0", "R22=atol,R11=R00+ulp", "R22=atol-ulp"):
+            for kind in ("R00=R11", "R00=-R11", "R22=atol", "R22=atol&R00=R11", "R22=atol&R00=-R11", "R00=R11=0", "R22=atol,R11=R00+ulp"):
+                # (no item strictly between 0 and atol: the VALUE of the mask threshold is free — any candidate with t_i ≳ 1 is
+                #  fine, `mat2SO3_any_branch` — only the comparison operators at exact coincidences are pinned here)
                 M = M0.clone()
                 a = torch.tensor(atol, dtype=D)
                 if "R22=atol" in kind:
                     M[2, 2] = a
-                if kind == "R22=atol-ulp":
-                    M[2, 2] = torch.nextafter(a, torch.tensor(-1.0, dtype=D))
                 if "R00=R11" in kind and "=0" not in kind:
                     M[1, 1] = M[0, 0]
                 if "R00=-R11" in kind:
@@ -1322,6 +1322,16 @@ def prep_tie(ctx: Ctx, case):
             d_signed = float((Y[i, qs] - want[i, qs]).abs().max())
             d_flip = float((Y[i, qs] + want[i, qs]).abs().max())
             ctx.count("tie.items")
+            # the sign is pinned where the choice of candidate is decided by a comparison OPERATOR at an exact coincidence or far from
+            # the R22 threshold; for R22 in the neighbourhood of 0 (other than R22 == atol itself) the threshold VALUE decides and any
+            # value is legitimate (`mat2SO3_any_branch`): sign-free there
+            r22 = float(M64[i, 2, 2])
+            pinned = (r22 == case["atol"]) or abs(r22) >= 0.1
+            if not pinned:
+                ctx.count("tie.items.sign-free")
+                if not min(d_signed, d_flip) <= K_ROT * eps * sc:
+                    ctx.disagree("tie", case | {"mats": [case["mats"][i]], "item": i}, f"{name} {dtype} item {i} [{case['tags'][i]}]: code differs from the model by {min(d_signed, d_flip):.3e} (sign-free)")
+                continue
             if not d_signed <= K_ROT * eps * sc:
                 what = "the OTHER sign (another candidate won the tie)" if d_flip <= K_ROT * eps * sc else f"a different value ({d_signed:.3e})"
                 ctx.disagree("tie", case | {"mats": [case["mats"][i]], "item": i},
@@ -1920,7 +1930,11 @@ def run_mode_orders(ctx: Ctx):
                     un = (a[:, U.QSL[name]].norm(dim=-1) - 1).abs().max().item()
                     if valid_in and not un <= 8 * eps:
                         ctx.fail(case | {"step": step, "state": b.tolist()}, f"unit: step {step} of a conversion chain ({name}, {dtype}): input unit to 1 ulp, output |‖q‖−1| = {un:.3e} > 8 eps")
-                    if not (dq <= K_ROT * eps and ds <= K_ROT * eps and ts):
+                    # on a state that is no longer unit the four candidates stop agreeing with each other (they agree only on exact rotation
+                    # matrices): a legitimate other mask threshold may then differ from the model by the order of the input's norm defect
+                    defect = float((b[:, U.QSL[name]].norm(dim=-1) - 1).abs().max())
+                    lim_q = K_ROT * eps + 4 * max(0.0, defect - eps)
+                    if not (dq <= lim_q and ds <= K_ROT * eps and ts):
                         ctx.disagree("chain", case | {"step": step, "state": b.tolist()},
                                      f"step {step} of a chain X -> from_matrix(X.matrix()) ({name}, {dtype}) differs from the exact result of that step: rotation {dq:.3e}, scale {ds:.3e}, translation equal={ts}")
                         break
